@@ -7,7 +7,7 @@
      Reader   for { select { <-ctx.Done: return Cause(ctx)            RCheck
                              default: row, e := iter.Next             RNext   (EOF -> nil, e -> e)
                                       select { rowChan <- row         RSend   (arm 1)
-                                               <-ctx.Done: return nil RSend   (arm 2: returns NIL)
+                                               <-ctx.Done: return Cause RSend   (arm 2; returned nil before the repair 882fd8624)
               }}}  defer close(rowChan)
      Batcher  for { select { <-ctx.Done: return Cause(ctx)            BRecv
                              <-timer.C: readTimeout != 0 -> ErrRowTimeout
@@ -134,8 +134,8 @@ RSend ==
     /\ \/ /\ Len(rowChan) < RowCap
           /\ rowChan' = Append(rowChan, rrow) /\ rpc' = "check"
           /\ UNCHANGED <<rcalls, rrow, rowClosed, egErr, ctxDone, cause>>
-       \/ /\ ctxDone                            \* `case <-ctx.Done(): return nil`
-          /\ ReaderReturn("none") /\ UNCHANGED <<rcalls, rrow, rowChan>>
+       \/ /\ ctxDone                            \* `case <-ctx.Done(): return context.Cause(ctx)`
+          /\ ReaderReturn(cause) /\ UNCHANGED <<rcalls, rrow, rowChan>>
     /\ UNCHANGED <<par, bpc, res, resChan, resClosed, spc, sbatch, processed, cpc, mpc, mret, fin, killed, delivered, ret>>
 
 Reader == RCheck \/ RNext \/ RSend
